@@ -166,4 +166,15 @@ theorem applyNests_ok {m m1 : Mappings} {ns : Nests} (h : applyNests m ns = .ok 
           subst h2
           exact ⟨mapped, t, mt, rfl, rfl, hmt, h1, rfl, rfl⟩
 
+/-- a cyclic table is an error, whatever the mapping set -/
+theorem applyNests_table_err (m : Mappings) (ns : Nests) (h : mapTable ns = none) : applyNests m ns = .error "e" := by
+  unfold applyNests
+  cases mapNests ns m with
+  | none => rfl
+  | some mapped => simp only [h]
+
+theorem undoNests_table_err (m : Mappings) (ns : Nests) (h : mapTable ns = none) : undoNests m ns = .error "e" := by
+  unfold undoNests
+  simp only [h]
+
 end Nest
